@@ -1525,12 +1525,15 @@ theorem startStep_fold (name : String) (sp : Spec) (l : List Mol) : ∀ (k : Nat
         · subst hjk
           have : j - (j + 1) = 0 := by omega
           simp only [this, Nat.sub_self, List.getElem?_cons_zero, List.length_set]
+          have hset : (st.set j (some k0))[j]? = if j < st.length then some (some k0) else st[j]? := by
+            by_cases hlt : j < st.length
+            · simp [List.getElem?_set, hlt]
+            · simp [hlt]
           cases hr : rest[0]? with
-          | none => simp [List.getElem?_set, hn, hf]; intro h; rw [List.getElem?_eq_none (by omega)]
+          | none => simp [hset, hn, hf]
           | some m2 =>
             have : ¬ (j + 1 ≤ j) := by omega
-            simp [this, List.getElem?_set, hn, hf]
-            intro h; rw [List.getElem?_eq_none (by omega)]
+            simp [this, hset, hn, hf]
         · by_cases hlt : j < k
           · have e1 : j - (k + 1) = 0 := by omega
             have e2 : j - k = 0 := by omega
@@ -1653,14 +1656,16 @@ theorem start_fold (mols : List Mol) (specs : List Spec) : ∀ (init st : List (
     intro i m hm
     rw [s2 i m hm, s1 i m hm]
     by_cases ha : specAddresses mols sp i = true
-    · simp only [List.filter_cons, ha, if_true]
+    · have hf : (sp :: rest).filter (specAddresses mols · i) = sp :: rest.filter (specAddresses mols · i) := by
+        simp [List.filter_cons, ha]
+      rw [hf, List.getLast?_cons]
       cases hr : (rest.filter (specAddresses mols · i)).getLast? with
-      | none =>
-        have : rest.filter (specAddresses mols · i) = [] := by simpa [List.getLast?_eq_none_iff] using hr
-        simp [this]
-      | some sp' => rw [List.getLast?_cons]; simp [hr]
-    · simp only [List.filter_cons, ha]
-      cases hr : (rest.filter (specAddresses mols · i)).getLast? <;> simp
+      | none => simp [ha]
+      | some sp' => simp
+    · have hf : (sp :: rest).filter (specAddresses mols · i) = rest.filter (specAddresses mols · i) := by
+        simp [List.filter_cons, ha]
+      rw [hf]
+      simp only [ha, Bool.false_eq_true, if_false]
 
 /-- `-start`: with consistent specifications the start dictionary is what the specifications select -/
 theorem start_exact (mols : List Mol) (specs : List Spec) (st : List (Option Nat))
